@@ -245,8 +245,80 @@ func C16(cfg Cfg) int {
 		mu.Unlock()
 		c.Close()
 	}
+	c16Outsider(run, cfg)
 	if run.Get("share_ownership_checks") == 0 || run.Get("generations_completed_after_rogue_call") == 0 {
 		run.Inconclusive("nothing was observed")
 	}
 	return run.Finish()
+}
+
+// c16Outsider: more peers are configured than take part in a generation.  A configured peer that is NOT a
+// participant sends a well-formed contribution to each participant in each session state; whatever the reply is,
+// it must not carry the share computed for another identifier.  (Peers are trusted not to disturb a generation,
+// so completion afterwards is not required here.)
+func c16Outsider(run *evid.Run, cfg Cfg) {
+	ids := idSet("small", 5)
+	c, err := rig.NewCluster(rig.ClusterOpts{Dir: cfg.Dir("c16-outsider"), IDs: ids})
+	if err != nil {
+		run.Inconclusive(err.Error())
+		return
+	}
+	defer c.Close()
+	seq := 0
+	subsets := [][]int{{0, 1, 2}, {2, 3, 4}, {0, 2, 4}, {1, 3}, {0, 1, 2, 3}}
+	for si, sub := range subsets {
+		if !cfg.Thorough() && si >= 3 {
+			break
+		}
+		var part, out []uint64
+		in := map[int]bool{}
+		for _, i := range sub {
+			part = append(part, ids[i])
+			in[i] = true
+		}
+		for i, id := range ids {
+			if !in[i] {
+				out = append(out, id)
+			}
+		}
+		t := uint32(len(part)/2 + 1)
+		for _, state := range []string{"prepared", "mid-execute", "all-contributed"} {
+			for _, x := range out {
+				seq++
+				g := &manualGen{c: c, ids: part, account: fmt.Sprintf("D/c16o-%d", seq), t: t, as: c.Endpoint(part[0]).Name}
+				if err := g.reach(state); err != nil {
+					run.Inconclusive(fmt.Sprintf("cannot reach state %s: %v", state, err))
+					continue
+				}
+				for _, p := range part {
+					sec, vv := fakeContribution(int(t), p)
+					res, rerr := c.Inst[p].Stack.ReceiverH.Contribute(rig.PeerCtx(c.Endpoint(x).Name), &pb.ContributeRequest{Account: g.account, Secret: sec, VerificationVector: vv})
+					run.Eval(1)
+					run.Count("outsider_contributions", 1)
+					run.Distinct(fmt.Sprintf("outsider peer -> participant in state %s, %d-of-%d: refused=%v share-bytes=%d", state, t, len(part), rerr != nil, len(res.GetSecret())))
+					if rerr != nil || len(res.GetSecret()) == 0 {
+						continue
+					}
+					var sk bls.SecretKey
+					if sk.Deserialize(res.GetSecret()) != nil || sk.IsZero() {
+						continue
+					}
+					pubShare := sk.GetPublicKey().Serialize()
+					for _, id := range ids {
+						if id == x {
+							continue
+						}
+						if ev, err := oracle.EvalVVec(res.GetVerificationVector(), id); err == nil && bytes.Equal(ev, pubShare) {
+							run.Violate(fmt.Sprintf("peer %d, which takes no part in the generation, was handed by participant %d the secret share computed for identifier %d (state %s)", x, p, id, state),
+								map[string]any{"participants": part, "caller": x, "target": p, "state": state, "share_of": id})
+						}
+					}
+				}
+				// Clear the session on every participant.
+				for _, p := range part {
+					_, _ = c.Inst[p].Stack.ReceiverH.Abort(rig.PeerCtx(g.as), &pb.AbortRequest{Account: g.account})
+				}
+			}
+		}
+	}
 }
